@@ -35,6 +35,10 @@ var matrix = []base{
 	// two partitions on two brokers, four messages: two sequenced messages can fail at different moments with fresh input in between
 	{"idem=1&rm=1&nm=5&parts=0,1,0,0,0&nb=2", 3, 4, "idem two failures"},
 	{"rm=1&nm=3&parts=0,1,0&nb=2&policy=input&xf=moved", 3, 4, "multi move order"},
+	// one response with two different per-partition outcomes (a request carrying both partitions: one is answered with a
+	// retriable error - before or after the append -, the other with a fatal one)
+	{"idem=1&rm=2&nm=3&parts=0,1,0&nb=1&policy=input&xf=timeout-appended~fatal,notleader~fatal", 2, 3, "idem multi pair"},
+	{"rm=2&nm=3&parts=0,1,0&nb=1&policy=input&xf=notleader~fatal,timeout-appended~notleader", 2, 3, "multi pair"},
 	{"ver=0.8.2.0&rm=1&nm=2", 3, 4, "v0"},
 	{"ver=0.10.2.0&rm=1&nm=2&fm=2&ff=100", 3, 3, "v1 batch"},
 	// RequiredAcks = NoResponse: the broker never answers, success is reported once the request is written
@@ -202,6 +206,8 @@ func Scenarios(prop string) []gx.Sc {
 		out = append(out, gx.Sc{Name: "prod?rm=1&nm=2&icpt=4&icptpanic=3&faults=" + Faults + "&gates=" + Gates, Q: 1, T: 2})
 		out = append(out, gx.Sc{Name: "prod?rm=1&nm=2&icpt=3&icptpanic=2&faults=" + Faults + "&gates=" + Gates, Q: 1, T: 2})
 		out = append(out, gx.Sc{Name: "prod?rm=1&nm=1&icpt=3&icptpanic=3&faults=" + Faults + "&gates=" + Gates, Q: 1, T: 2})
+		// a nil entry in the middle of the chain (calling it panics; contained like any panicking interceptor)
+		out = append(out, gx.Sc{Name: "prod?rm=1&nm=2&icpt=3&icptnil=2&faults=" + Faults + "&gates=" + Gates, Q: 1, T: 2})
 		// a tombstone (nil Value) through a chain with a panicking interceptor in the middle
 		out = append(out, gx.Sc{Name: "prod?rm=1&nm=2&icpt=3&icptpanic=2&tomb=1&faults=" + Faults + "&gates=" + Gates, Q: 1, T: 2})
 		// a submission the dispatcher rejects (larger than MaxMessageBytes) while another message is being retried
